@@ -69,7 +69,8 @@ impl PropertyValue {
             30 => {
                 let length = reader.read_u32::<LittleEndian>()?;
                 let length = if length == 0 { 0 } else { length - 1 };
-                let mut bytes: Vec<u8> = Vec::with_capacity(length as usize);
+                // (No up-front allocation: a damaged file can claim 4 GiB.)
+                let mut bytes: Vec<u8> = Vec::new();
                 for _ in 0..length {
                     bytes.push(reader.read_u8()?);
                 }
